@@ -689,7 +689,7 @@ func c07Gen(prop string) func(r *Rng, i int, tier string) any {
 				}
 				in.Shape += "/resolved-start-after-stop"
 			} else if span >= 3 {
-				d := r.Intn(span - 1)
+				d := 1 + r.Intn(span-2) // never 0: a start of 0 is not a negative start (it would be a start below the first merged file)
 				resolved := hubHeadNum - uint64(d)
 				in.Start = -int64(d)
 				in.Stop = resolved - uint64(1+r.Intn(2))
